@@ -17,7 +17,7 @@ Check2 ==
             g |-> SetToSeq({[r |-> Jsonable(r[1]), x |-> Join(r[2]), os |-> SetToSeq({OptCode(q.o) : q \in {z \in Q : z.m = r[1] /\ z.x = r[2]}})] : r \in R})])))
 \* values: all five special characters, leading/trailing blanks, tab, newline, a non-ASCII placeholder, look-alikes
 cVals == [names |-> {N(<<"a">>), N(<<"B">>)}, anames |-> {N(<<"x">>), N(<<"k", "-", "x">>)},
-          avals |-> {<<"<", "&", ">">>, <<"\"", "'">>, <<" ", "7", " ">>, <<"~", "'">>},
+          avals |-> {<<"<", "&", ">">>, <<"\"", "'">>, <<" ", "7", " ">>, <<"~", "'">>, BigNum},
           texts |-> {<<"<", "&", ">">>, <<"\"", "'">>, <<" ", "v", "\t">>, <<"7">>, <<"~", "&", "\n", "~">>, <<"\n">>}, maxattrs |-> 1, comments |-> FALSE]
 \* values with exactly ONE kind of special character each (an escaping routine that looks for "any special" first)
 cVals1 == [names |-> {N(<<"a">>)}, anames |-> {N(<<"x">>), N(<<"y">>)},
